@@ -248,6 +248,43 @@ def postsolve_shape(src):
     return "[%s]" % ", ".join(toks)
 
 
+def companion_loop(src, fname, attr, kind_cls, status_name):
+    """the first loop of _get_pump_controls / _get_valve_controls -> CompLoop tokens"""
+    f = find_fn(ast.parse(src), fname, "WNTRSimulator")
+    body = strip_doc(f.body)
+    loops = [s for s in body if isinstance(s, ast.For)]
+    if not loops or U(loops[0].iter) != "self._wn.controls()":
+        raise Bad("%s: first loop is not over self._wn.controls()" % fname)
+    pre = body[:body.index(loops[0])]
+    extra_state = [U(s) for s in pre if not (isinstance(s, ast.Assign) and isinstance(s.value, ast.List) and not s.value.elts)]
+    lp = loops[0]
+    if len(lp.body) != 1 or not isinstance(lp.body[0], ast.For) or U(lp.body[0].iter) != "control.actions()":
+        raise Bad("%s: no `for action in control.actions()`" % fname)
+    inner = lp.body[0].body
+    if len(inner) != 2 or U(inner[0]) != "target_obj, target_attr = action.target()" or not isinstance(inner[1], ast.If) or inner[1].orelse:
+        raise Bad("%s: inner loop is not `target = action.target(); if target_attr == ...`" % fname)
+    test = U(inner[1].test)
+    if test != "target_attr == '%s'" % attr:
+        raise Bad("%s: tests %s" % (fname, test))
+    blk = inner[1].body
+    text = "\n".join(U(x) for x in blk)
+    dedup = bool(extra_state) or any(isinstance(n, (ast.Continue, ast.Break)) for x in blk for n in ast.walk(x)) or \
+        any(isinstance(n, ast.Compare) and any(isinstance(o, (ast.In, ast.NotIn)) for o in n.ops) for x in blk for n in ast.walk(x))
+    if "isinstance(target_obj, %s)" % kind_cls not in text:
+        raise Bad("%s: no isinstance(target_obj, %s) guard" % (fname, kind_cls))
+    if "new_status = LinkStatus.%s" % status_name not in text or "new_action = ControlAction(target_obj, 'status', new_status)" not in text:
+        raise Bad("%s: companion does not command status %s" % (fname, status_name))
+    news = [n for x in blk for n in ast.walk(x) if isinstance(n, ast.Call) and U(n.func) == "type(control)"]
+    if len(news) != 1 or not any(".append(new_control)" in U(x) for x in blk):
+        raise Bad("%s: companion is not built by one type(control)(...) and appended" % fname)
+    call = news[0]
+    cond_ok = len(call.args) >= 1 and (U(call.args[0]) == "control.condition" or (U(call.args[0]) == "condition" and "condition = control.condition" in text))
+    prio_ok = any(k.arg == "priority" and U(k.value) == "control.priority" for k in call.keywords)
+    return "{ attr := .%s, kind := .%s, status := %d, samePriority := %s, sameCondition := %s, perAction := %s }" % (
+        {"setting": "setting", "base_speed": "baseSpeed"}[attr], {"Valve": "valve", "Pump": "pump"}[kind_cls],
+        {"Active": 2, "Open": 1}[status_name], str(prio_ok).lower(), str(cond_ok).lower(), str(not dedup).lower())
+
+
 def internal_writers(src):
     """(builder, link kind, guard) for every `_InternalControlAction(link, '_internal_status', ...)` in WNTRSimulator"""
     tree = ast.parse(src)
@@ -322,6 +359,10 @@ def generate():
         "",
         "/-- `WNTRSimulator._run_postsolve_controls` (logging dropped) -/",
         "def postsolveShape : List PTok := " + postsolve_shape(core),
+        "",
+        "/-- the companion loops of `_get_valve_controls` / `_get_pump_controls` -/",
+        "def valveCompLoop : CompLoop := " + companion_loop(core, "_get_valve_controls", "setting", "Valve", "Active"),
+        "def pumpCompLoop : CompLoop := " + companion_loop(core, "_get_pump_controls", "base_speed", "Pump", "Open"),
         "",
         "/-- every builder of an `_InternalControlAction(link, '_internal_status', ...)`: builder, link kind, guard -/",
         "def internalWriters : List Writer := [" + ", ".join('⟨"%s", .%s, "%s"⟩' % x for x in w) + "]",
